@@ -116,6 +116,8 @@ func (l *c06List) build(r *rand.Rand, uid *gen.UID, depth, maxDepth, unknownDept
 				s := "group " + uid.Next()
 				g.Group = &s
 			}
+			// group keys are data: nested groups (and their command steps) may well carry the same key, or none
+			g.Key = []string{"", "deploy", "deploy", "build", "k"}[r.IntN(5)]
 			g.Steps = l.build(r, uid, depth+1, maxDepth, unknownDepth, unknownPos)
 			if g.Steps == nil {
 				g.Steps = pipeline.Steps{}
